@@ -60,7 +60,7 @@ fn static_name(n: &str) -> &'static str {
     "?"
 }
 
-fn call_to_json(c: &Call) -> Value {
+pub fn call_to_json(c: &Call) -> Value {
     match c {
         Call::Sym(n, t, r) => json!(["sym", n, ty_json(t), r]),
         Call::Lit(b, r) => json!(["lit", b, r]),
@@ -87,7 +87,7 @@ fn ty_json(t: &Ty) -> Value {
     }
 }
 
-fn call_from_json(v: &Value) -> Result<Call, String> {
+pub fn call_from_json(v: &Value) -> Result<Call, String> {
     let u = |i: usize| v[i].as_u64().map(|x| x as usize).ok_or(format!("arg {i}"));
     let s = |i: usize| v[i].as_str().map(|x| x.to_string()).ok_or(format!("arg {i}"));
     Ok(match v[0].as_str().ok_or("call kind")? {
@@ -145,7 +145,7 @@ fn refnum(e: ExprRef) -> u32 {
 }
 
 /// builds a literal of the given bits through one of several computation routes
-fn build_literal(ctx: &mut Context, bits: &str, route: u8) -> ExprRef {
+pub fn build_literal(ctx: &mut Context, bits: &str, route: u8) -> ExprRef {
     let w = bits.len() as u32;
     let direct = BitVecValue::from_bit_str(bits).unwrap();
     match route % 8 {
@@ -290,7 +290,7 @@ fn pick_width(rng: &mut Rng) -> u32 {
 }
 
 /// a statically typed client program
-fn gen_program(rng: &mut Rng, n: usize, burst: bool) -> Vec<Call> {
+pub fn gen_program(rng: &mut Rng, n: usize, burst: bool) -> Vec<Call> {
     let mut calls: Vec<Call> = vec![];
     let mut types: Vec<Option<Ty>> = vec![];
     let names = ["a", "b", "c", "x", "y", "mem", "a b", "s@0", "_0"];
@@ -963,5 +963,70 @@ impl Property for C12 {
             distinct_measure: "distinct (first 64 scheduling decisions, client programs) pairs".into(),
             distinct2_measure: "distinct client program sets".into(),
         }
+    }
+}
+
+
+/// performs one builder call without any checking (used by other properties to build pools)
+pub fn apply_call_plain(ctx: &mut Context, call: &Call, res: &[Option<ExprRef>]) -> Option<ExprRef> {
+    let arg = |i: usize| -> ExprRef { res[i].expect("typed program refers to an expression result") };
+    match call {
+        Call::Sym(name, ty, _) => Some(match ty {
+            Ty::Bv(w) => ctx.bv_symbol(name, *w),
+            Ty::Arr(i, d) => ctx.array_symbol(name, *i, *d),
+        }),
+        Call::Lit(bits, route) => Some(build_literal(ctx, bits, *route)),
+        Call::Un(op, a) => Some(match *op {
+            "not" => ctx.not(arg(*a)),
+            _ => ctx.negate(arg(*a)),
+        }),
+        Call::Bin(op, a, b) => {
+            let (x, y) = (arg(*a), arg(*b));
+            Some(match *op {
+                "and" => ctx.and(x, y),
+                "or" => ctx.or(x, y),
+                "xor" => ctx.xor(x, y),
+                "add" => ctx.add(x, y),
+                "sub" => ctx.sub(x, y),
+                "mul" => ctx.mul(x, y),
+                "div" => ctx.div(x, y),
+                "signed_div" => ctx.signed_div(x, y),
+                "signed_mod" => ctx.signed_mod(x, y),
+                "signed_remainder" => ctx.signed_remainder(x, y),
+                "remainder" => ctx.remainder(x, y),
+                "shift_left" => ctx.shift_left(x, y),
+                "shift_right" => ctx.shift_right(x, y),
+                "arithmetic_shift_right" => ctx.arithmetic_shift_right(x, y),
+                "equal" => ctx.equal(x, y),
+                "greater" => ctx.greater(x, y),
+                "greater_signed" => ctx.greater_signed(x, y),
+                "greater_or_equal" => ctx.greater_or_equal(x, y),
+                "greater_or_equal_signed" => ctx.greater_or_equal_signed(x, y),
+                "concat" => ctx.concat(x, y),
+                "implies" => ctx.implies(x, y),
+                other => panic!("HARNESS: unknown op {other}"),
+            })
+        }
+        Call::Slice(a, hi, lo) => Some(ctx.slice(arg(*a), *hi, *lo)),
+        Call::Ext(signed, a, by) => Some(if *signed {
+            ctx.sign_extend(arg(*a), *by)
+        } else {
+            ctx.zero_extend(arg(*a), *by)
+        }),
+        Call::Ite(c, a, b) => Some(ctx.ite(arg(*c), arg(*a), arg(*b))),
+        Call::ArrConst(a, iw) => Some(ctx.array_const(arg(*a), *iw)),
+        Call::ArrStore(a, i, d) => Some(ctx.array_store(arg(*a), arg(*i), arg(*d))),
+        Call::ArrRead(a, i) => Some(ctx.array_read(arg(*a), arg(*i))),
+        Call::ArrLit(iw, default, entries) => {
+            let mut arr = baa::ArrayValue::new_sparse(*iw, &BitVecValue::from_bit_str(default).unwrap());
+            use baa::ArrayMutOps;
+            for (i, d) in entries {
+                arr.store(&BitVecValue::from_bit_str(i).unwrap(), &BitVecValue::from_bit_str(d).unwrap());
+            }
+            Some(ctx.lit(baa::Value::Array(arr)))
+        }
+        Call::Str(_) | Call::Burst(_) => None,
+        Call::True => Some(ctx.get_true()),
+        Call::False => Some(ctx.get_false()),
     }
 }
